@@ -13,26 +13,23 @@ import re
 import vf
 
 META = {
-    "text": "Theorems (Coq, no axioms) over a literal model of stateBuffer (entries, per-key index stacks, nextIdx; peek=-1, "
-            "slice accesses that can panic) and of StateDB/storage cache/ContractState handles/BlockState.Snapshot/Rollback with "
-            "explicit pointers: the index invariant is preserved by every operation and excludes every panic; reads return the "
-            "latest surviving write; rollback to any still-valid revision restores the log exactly, for every nesting; export is "
-            "sorted, duplicate free, independent of map iteration order and a function of the surviving writes only; a block-level "
-            "revert after any disciplined span (nested block and contract snapshots) never panics and restores accounts and every "
-            "staged storage and drops storages staged later; every non-panicking operation, Update and Commit included, keeps the "
-            "block-level invariant; AccountState / ContractState handles are copies until put (pointer identity modelled: every "
-            "setter, SetCode, Reset, CreateAccountState), StateDB.SetRoot/Revert, Clone, ChainStateDB.Apply and reopening at any "
-            "persisted root, StateDB.Snapshot/Rollback, HasKey, GetInitialData, SetRawKV/GetRawKV.  The statement with Update between "
-            "snapshot and revert is refuted (kept as _refuted, reproduced on the code each run as a known finding).  The model is "
-            "tied to /repo on every run: the real packages and the model are run on the same traces (exhaustive short sequences + "
-            "random long ones) and every account, handle read, cached storage (revision, export(), index stacks, root) and the state "
-            "root are compared after every operation; direct predicates on the implementation alone: revert restores, reverted "
-            "writes do not reach root or persisted data (run with vs without the reverted spans), account and storage reads equal "
-            "the latest non-reverted write of an explicit frame stack.",
-    "note": "Trusted: Coq kernel/vm_compute; trace generator and engine (harness/engines/statebuf); the tries are finite maps "
-            "(root = injective function of the map: C10, SHA-256 collision freedom); value bytes abstracted to ids; handles are not "
-            "held across block snapshots in the disciplined theorems (the node's executor snapshots before opening anything); "
-            "rollback to a revision above the current one is outside the contract (Go re-slices beyond len) and never executed.",
+    "text": "30 theorems (Coq, no axioms) over a literal model of stateBuffer and of StateDB / storage cache / ContractState and "
+            "AccountState handles (pointer identity) / BlockState / ChainStateDB.  FULL: the index invariant holds after every valid run "
+            "and excludes every panic; reads = latest surviving write; rollback restores the log for any nesting; export/stage sorted, "
+            "duplicate free, map-order independent, functions of the surviving writes; every non-panicking operation (31 kinds) keeps "
+            "the block invariant; handles are copies until PutState (all setters, in every reachable state); "
+            "SetRoot/Revert, reopen at a root, Apply, StateDB.Rollback specs.  FULL UNDER A STATED DISCIPLINE (run_ok: valid nesting, "
+            "no Update/Commit inside the span, mutations only through objects not in the buffer): block revert restores accounts and "
+            "every staged storage.  REFUTED without it (witness theorems, each reproduced on /repo every run): C12:update-then-rollback, "
+            "C12:mutate-after-put, C12:setcode-aliases-buffer (F48a-c, API contracts the node respects), C12:clone-drops-sourcehash (F47).  "
+            "Tie: in-package engine of package state drives the real API on the same traces as the model (vm_compute); all accounts, "
+            "handles, cached storages (revision, export(), stacks, root), account buffer, handle states and the state root compared after "
+            "every step; direct predicates on the implementation alone: revert restores, reverted writes reach neither root nor reopened "
+            "state (twin trace), reads = explicit frame-stack specification, caller-side operations invisible, no panic.",
+    "note": "Trusted: Coq kernel + vm_compute; no axioms, no translator; engine harness/engines/statebuf (+ read-only accessor shim in "
+            "state/statedb), generator and specification state in this script.  Modelled, not verified: tries are finite maps (root = "
+            "injective function of the map: C10, SHA-256); byte strings are ids; the DB below db.DB.  Assumptions of the theorems: rollback "
+            "revisions not above the current one (Go re-slices beyond len: never executed); run_ok for the block-level restore.",
     "technique": "Coq proof over literal Gallina undo-log/heap model + vm_compute trace correspondence against real state packages",
 }
 
@@ -489,8 +486,9 @@ def run(ctx):
                                "trace generator checks/C12.py", "SHA-256 collision freedom (root equality = map equality)"]
     ctx.assumptions = ["tries are finite maps; equal roots iff equal maps (C10)",
                        "rollback revisions above the current revision are outside the contract and not executed",
-                       "disciplined theorems: no handle is held across a block snapshot or a block rollback; no Update/Commit "
-                       "between a snapshot and the revert to it"]
+                       "block-level restore (run_ok): valid nesting of snapshots and reverts, handles of a reverted span not used "
+                       "afterwards, setters / SetCode only through State objects that are not in the buffer, no Update / Commit / "
+                       "SetRoot / Apply between a snapshot and the revert to it"]
     eng = os.path.join(vf.HARNESS, "engines/statebuf/zz_verif_c12_engine_test.go")
     shim = os.path.join(vf.HARNESS, "engines/statebuf/zz_verif_statedb_shim.go")
     rc, log, binp = ctx.go_test_binary("state", [eng], "state_c12.test", use_overlay=False,
